@@ -116,6 +116,37 @@ func genC05(r *Rng, n int, tier string, emit func(Case)) {
 			emit(Case{"kind": "render", "doc": doc, "data": data, "bucket": "literal-spread", "nattrs": 5, "what": "object literal spread"})
 			continue
 		}
+		if rr.Chance(1, 14) {
+			// an object BUILT before it is spread: copied from the data with Object.assign into an empty literal, then given one more
+			// member by assignment. Every member appears exactly once (specification: the tag with the finished object spread on it).
+			src := []string{"sp", "spClass"}[rr.Intn(2)]
+			t := nTag("div", false, nil, nText("body"))
+			t["ablocks"] = []interface{}{"built"}
+			doc := []interface{}{nRaw(sVar("built", eCall(eDot(eId("Object"), "assign"), eObj(), eId(src)))),
+				nRaw(sAssign(eDot(eId("built"), "role"), eStr("button")))}
+			if rr.Bool() {
+				doc = append(doc, nRaw(sAssign(eIdx(eId("built"), eStr("lang")), eStr("de"))))
+			}
+			doc = append(doc, t)
+			fin := J{}
+			for k, v := range data[src].(J) {
+				fin[k] = v
+			}
+			fin["role"] = "button"
+			if len(doc) == 4 {
+				fin["lang"] = "de"
+			}
+			data2 := J{}
+			for k, v := range data {
+				data2[k] = v
+			}
+			data2["finished"] = fin
+			st := nTag("div", false, nil, nText("body"))
+			st["ablocks"] = []interface{}{"finished"}
+			emit(Case{"kind": "render", "oracle": "attrs", "doc": doc, "spec_doc": []interface{}{st}, "data": data2, "bucket": "built-spread", "nattrs": len(fin),
+				"what": "Object.assign({}, " + src + ") + member assignment, spread"})
+			continue
+		}
 		// the same attributes given to a MIXIN CALL whose body spreads `attributes` on its tag: `+m.primary.large(title=t)`. Only when
 		// every attribute is escaped and there is no extra spread (then the two forms are the same tag).
 		allEsc := tag["ablocks"] == nil || len(asList(tag["ablocks"])) == 0
